@@ -422,6 +422,9 @@ class Facts:
         with open(path) as f:
             self.raw = json.load(f)
         self.path = path
+        # helpers that the pinned tree does not have are inlined into their callers (exact summary; see vf/inline.py)
+        from .inline import inline_new_helpers
+        self.inlined_helpers = inline_new_helpers(self.raw)
         self.crate = self.raw["crate"]
         self.features = self.raw["features"]
         self.rustc = self.raw["rustc"]
